@@ -82,7 +82,8 @@ impl Sm9EncKey {
             x.iter().all(|&byte| byte == 0)
         }
 
-        if !is_zero(&k) {
+        // B3: K1 must not be all zero
+        if !is_zero(&k[0..mlen].to_vec()) {
             let k = k.as_slice();
             let k1 = &k[0..mlen];
             let k2 = &k[mlen..];
@@ -113,6 +114,7 @@ impl Sm9EncMasterKey {
         let t = sm9_u256_hash1(idb, SM9_HID_ENC);
         let mut c1 = SM9_POINT_MONT_P1.point_mul(&t);
         c1 = c1.point_add(&self.ppube);
+        let q = c1;
 
         let mut k = vec![];
         loop {
@@ -120,7 +122,7 @@ impl Sm9EncMasterKey {
             let r = sm9_random_u256(&SM9_N_MINUS_ONE);
 
             // A3: C1 = r * Q
-            c1 = c1.point_mul(&r);
+            c1 = q.point_mul(&r);
             let cbuf = c1.to_bytes_be();
             let cbuf = cbuf.as_slice();
 
@@ -143,7 +145,8 @@ impl Sm9EncMasterKey {
                 x.iter().all(|&byte| byte == 0)
             }
 
-            if !is_zero(&k) {
+            // A6: go back to A2 while K1 is all zero
+            if !is_zero(&k[0..data.len()].to_vec()) || (data.is_empty() && !is_zero(&k)) {
                 break;
             }
         }
